@@ -29,6 +29,28 @@ pub struct BatchCase {
     pub instances: Vec<Inst>,
 }
 
+/// "honest_identity_t1": an honest proof whose T_1 is replaced by the identity; "honest_extra_round": an
+/// honest proof with one more inner-product round -- members that fail the structural checks made
+/// before the combined check
+pub fn spoil<G: AffineRepr>(p: &R1CSProof<G>, kind: &str) -> R1CSProof<G> {
+    use ark_bulletproofs::verif_hooks::InnerProductProof;
+    let (mut pts, scs, ipp) = {
+        let (a, b, c) = p.verif_parts();
+        (a, b, c.clone())
+    };
+    let (l, r, a, b) = ipp.verif_parts();
+    let (mut l, mut r) = (l.to_vec(), r.to_vec());
+    match kind {
+        "honest_identity_t1" => pts[6] = G::zero(),
+        "honest_extra_round" => {
+            l.push(pts[0]);
+            r.push(pts[1]);
+        }
+        _ => return p.clone(),
+    }
+    R1CSProof::verif_from_parts(pts, scs, InnerProductProof::verif_from_parts(l, r, a, b))
+}
+
 fn last_residual(ctx: &str) -> Option<Lin> {
     let evs = events_in(ctx);
     let r_pos = arena::with(|a| a.chals.iter().filter(|c| c.ctx == ctx && c.label == "r").map(|c| c.merlin_pos).last());
@@ -56,11 +78,11 @@ where
     let mut ok = true;
     for (i, inst) in case.instances.iter().enumerate() {
         let shr = new_shared::<SymA<C>>(&inst.shape, &Default::default(), Box::new(SymVals::<C::ScalarField>::new(seed.wrapping_add(i as u64 * 101))));
-        if inst.kind == "honest" {
+        if inst.kind.starts_with("honest") {
             arena::set_ctx(&format!("prove{}", i));
             let (p, _pt) = prove_shape(&inst.shape, &shr, &pc, &bp, seed.wrapping_add(i as u64));
             match p {
-                Ok(p) => proofs.push(p),
+                Ok(p) => proofs.push(spoil(&p, &inst.kind)),
                 Err(e) => {
                     job.check(&format!("instance {} proves", i), false, format!("{:?}", e));
                     ok = false;
@@ -121,6 +143,13 @@ where
     let expected = indiv_ok.iter().all(|x| *x);
     job.concrete = serde_json::json!({"individual_ok": indiv_ok, "batch_ok": res.is_ok(), "expected_batch_ok": expected});
     job.check("concrete batch verdict equals the conjunction of the individual verdicts", res.is_ok() == expected, format!("batch {:?} individual {:?}", res, indiv_ok));
+    // members that fail a structural check stop the batch before any weight is drawn
+    if case.instances.iter().any(|i| i.kind.starts_with("honest_")) {
+        job.check("a structurally invalid member makes the batch fail with an error value", res.is_err(), format!("{:?}", res));
+        job.stats = stats();
+        job.replay = serde_json::json!({"kind": "c07", "case": case, "seed": seed});
+        return job;
+    }
     // the alpha draws
     let alphas: Vec<u32> = arena::with(|a| (0..a.terms.len() as u32).filter(|t| a.var_name(*t).map(|n| n.starts_with("alpha")).unwrap_or(false)).collect());
     job.check("batch verification draws exactly one fresh weight per instance", alphas.len() == k, format!("{} weight draws for {} instances", alphas.len(), k));
@@ -253,6 +282,9 @@ pub fn c07_cases(thorough: bool) -> Vec<BatchCase> {
         BatchCase { name: "two_opaque".into(), instances: vec![o(&one), o(&one)] },
         BatchCase { name: "three_opaque_mixed".into(), instances: vec![o(&one), o(&two), o(&zero)] },
         BatchCase { name: "honest_then_opaque".into(), instances: vec![h(&one), o(&two)] },
+        BatchCase { name: "honest_then_identity_point_member".into(), instances: vec![h(&one), Inst { shape: two.clone(), kind: "honest_identity_t1".into() }] },
+        BatchCase { name: "wrong_round_count_member_first".into(), instances: vec![Inst { shape: one.clone(), kind: "honest_extra_round".into() }, h(&two)] },
+        BatchCase { name: "only_structurally_invalid_member".into(), instances: vec![Inst { shape: two.clone(), kind: "honest_identity_t1".into() }] },
         BatchCase { name: "opaque_then_honest_two_phase".into(), instances: vec![o(&twop), h(&one)] },
     ];
     if thorough {
